@@ -12,7 +12,8 @@ CHECK = dict(
          'dispatch, queues well-formed at every pass boundary); states = distinct hashed states at choice points',
     bounds=dict(quick='7 main-loop situations x every sequence of 1..2 interrupt-side actions from 5 kinds x nesting 1..2: ALL placements; '
                       'the same as free threads with <=2 preemptions for 4 situations; depth-1 event queue and nearly full atomic run '
-                      'queue (6,7 pre-filled) variants; settle phase of up to 12 further passes',
+                      'queue (6,7 pre-filled) variants; an event queue 3 deep whose cursors have been through 254/255/256 real '
+                      'claim/send/receive/release cycles before 2 events arrive; settle phase of up to 12 further passes',
                 thorough='adds every sequence of 3 interrupt-side actions (<=3 deviations) for 3 situations, free threads with <=3 preemptions'),
     assumptions=['interrupt handlers run to completion and nest at most 2 deep; injection points are the atomic operations of the main '
                  'context (sufficient for data-race-free code, checked by C07 on the same scenarios)',
